@@ -110,6 +110,14 @@ def oracle(cfg, w_in, w_out):
           fails.append(dict(kind="convexity", unit=u, amount=float(v[k]), tol=float(t[k]), where=k))
         else:
           ratios.append(float(np.max(np.maximum(v, 0) / t)))
+    if conv == 0 and mono != 0 and cfg.get("iters", 1) > 0:
+      # the clamp at the *starting* end is the bias itself, which the projection sets to the bound: exact, however far
+      # outside the incoming bias was (bit-exact on 189 cases with biases up to 1e9; the far end carries heights' rounding)
+      start = float(p[0, u])
+      if mono == 1 and cfg.get("clamp_min") and omin is not None and start != core.f32(omin):
+        fails.append(dict(kind="clamp_start_exact", unit=u, amount=abs(start - core.f32(omin)), tol=0.0))
+      if mono == -1 and cfg.get("clamp_max") and omax is not None and start != core.f32(omax):
+        fails.append(dict(kind="clamp_start_exact", unit=u, amount=abs(start - core.f32(omax)), tol=0.0))
     if conv == 0 and mono != 0:
       first, last = float(sums[0, u]), float(sums[-1, u])
       lo_end, hi_end = (first, last) if mono == 1 else (last, first)
@@ -181,8 +189,12 @@ def gen_cases(ctx):
     w = None
     if mode == "random":
       kclass, w = gen.pwl_kernel(rng, nk, cfg["units"], cfg["mono"])
+      if rng.rand() < .1:
+        kclass = "hugebias/" + kclass           # first keypoint output far outside any bound (1e5 .. 1e9)
+        w[0] = rng.choice([4.2e7, -4.2e7, 1e9, -1e9, 3e5], size=w.shape[1])
       w = w.tolist()
-    yield {"kind": entry, "cfg": cfg, "mode": mode, "kclass": kclass, "w": w,
+    kp_offset = float(rng.choice([5e7, 1.7e9, -3e6])) if (entry == "layer" and rng.rand() < .3) else 0.0
+    yield {"kind": entry, "cfg": cfg, "mode": mode, "kclass": kclass, "w": w, "kp_offset": kp_offset,
            "kseed": int(rng.randint(2**31 - 1)), "labels": labels,
            "exec": modes.pick(rng, (0.7, 0.3, 0.0), allow=("eager", "graph"))}
 
@@ -257,7 +269,13 @@ def run_case(ctx, case):
     site = "project_all_constraints"
     judge(ctx, site, cfg, w, out, _state["fin"], w_cls)
   else:
-    kp = np.concatenate([[cfg["kp0"]], cfg["kp0"] + np.cumsum(np.asarray(cfg["lengths"], dtype=np.float64))])
+    # keypoints far from the origin (timestamps, ids): the constraint works on the *differences* of the configured
+    # keypoints, which stay well defined in float64 even when the keypoints themselves collapse in float32
+    k0 = cfg["kp0"] + case.get("kp_offset", 0.0)
+    kp = np.concatenate([[k0], k0 + np.cumsum(np.asarray(cfg["lengths"], dtype=np.float64))])
+    if case.get("kp_offset"):
+      ctx.cls("keypoint_offset:%g" % case["kp_offset"])
+      cfg = dict(cfg, lengths=np.diff(kp).tolist())      # the oracle uses the spacing of the keypoints actually configured
     if cfg["cyclic"]:
       # a cyclic layer stores one row fewer; use one more keypoint so the kernel keeps its size
       kp = np.concatenate([kp, [kp[-1] + 1.0]])
